@@ -182,6 +182,8 @@ impl AtomicBitmap {
         // whole-view postcondition: exactly the pages the byte range overlaps (below the page count)
         // change, to `set`; every other page keeps its state
         forall|n: int| #[trigger] final(self).dirty(n) == (if old(self).in_range(start_addr as int, len as int, n) && n < old(self).size { set } else { old(self).dirty(n) }), // [C09,C16,C05]
+        // an empty range names no page
+        len == 0 ==> (forall|n: int| #[trigger] final(self).dirty(n) == old(self).dirty(n)), // [C18,C16]
 //@end
 //@loop 1
             invariant_except_break
@@ -192,7 +194,7 @@ impl AtomicBitmap {
             invariant
                 self.wf(), self.size == old(self).size, self.byte_size == old(self).byte_size, self.page_size == old(self).page_size,
                 self.map@.len() == old(self).map@.len(),
-                len > 0,
+                len > 0, // [C09,C18,C16]
                 first_bit == start_addr as int / (self.page_size.v as int),
                 last_bit == (if start_addr + len - 1 > usize::MAX { usize::MAX as int } else { start_addr + len - 1 }) / (self.page_size.v as int),
                 first_bit <= last_bit,
